@@ -117,3 +117,21 @@ package otlp
 //@     invariant [no-pair-so-far-failed] ghost(0, "anyElemFailed") == 0
 //@   ensures [a-list-value-converts-only-if-every-element-converted] implies(result1 == nil, ghost(0, "anyElemFailed") == 0)
 //@ end
+
+// C16 (a span is stored with every attribute it was sent with, or rejected as a
+// whole): a span is serialised only if EVERY attribute converted — an attribute
+// of an unsupported kind fails the span (it is then counted as rejected), it is
+// never dropped from an accepted span.  Ghost spanAttrFailed: the conversion of
+// some attribute of this span returned an error.
+//@ ghostdecl spanAttrFailed int
+//@ func spanToJson
+//@   props C16
+//@   assumecalleerequires
+//@   ghostinit ghost(0, "spanAttrFailed") == 0
+//@   site callret extractKeyValue #1:
+//@     ghostset ghost(0, "spanAttrFailed") = ite(result2 != nil, 1, ghost(0, "spanAttrFailed"))
+//@   loop 1:
+//@     invariant [no-attribute-so-far-failed-to-convert] ghost(0, "spanAttrFailed") == 0
+//@   site call json.Marshal #2:
+//@     assert [a-span-is-serialised-only-if-every-attribute-converted] ghost(0, "spanAttrFailed") == 0
+//@ end
